@@ -171,6 +171,8 @@ func (s *scanner) ReadString() (String, error) {
 			return nil, err
 		}
 		if ignoreLF && b == 10 {
+			// the LF of a CR+LF pair; a further LF is a line end of its own
+			ignoreLF = false
 			continue
 		}
 		ignoreLF = false
